@@ -1,7 +1,248 @@
-// Package c14 interprets the C14 op language against the real packages (stub).
+// Package c14 interprets the C14 op language against the real rule managers and the global slot chain.
+//
+// A case has two phases separated by `phase B`: the same traffic, once with the `*.reload*` ops and once
+// without.  `phase B` clears every module (rules, resource nodes) and the recorded sleeps; the ops carry
+// absolute virtual times, so both phases see the same clock.  A requested Sleep (throttling) is recorded
+// and reported, it does not advance the clock: the traffic schedule is given by the ops alone.
 package c14
 
-import "verifharness/internal/vh"
+import (
+	"errors"
+	"fmt"
+	"runtime"
+	"runtime/debug"
+	"strconv"
+	"strings"
+	"time"
 
-// New returns the interpreter for C14.
-func New() vh.Interp { return nil }
+	sentinel "github.com/alibaba/sentinel-golang/api"
+	"github.com/alibaba/sentinel-golang/core/circuitbreaker"
+	"github.com/alibaba/sentinel-golang/core/flow"
+	"github.com/alibaba/sentinel-golang/core/hotspot"
+	"github.com/alibaba/sentinel-golang/core/stat"
+	"github.com/alibaba/sentinel-golang/util"
+	"verifharness/internal/vh"
+)
+
+// clock: like vh.Clock but Sleep only records.
+type clock struct {
+	ns    uint64
+	slept time.Duration
+}
+
+func (c *clock) Now() time.Time            { return time.Unix(0, int64(c.ns)) }
+func (c *clock) Sleep(d time.Duration)     { c.slept += d }
+func (c *clock) CurrentTimeMillis() uint64 { return c.ns / 1e6 }
+func (c *clock) CurrentTimeNano() uint64   { return c.ns }
+
+type Interp struct {
+	clk *clock
+	rec [][]string // the ops of phase A that are not reloads: `phase B` runs them again
+}
+
+const baseMs = 1900000000000
+
+var errTraffic = errors.New("biz error")
+
+func New() vh.Interp {
+	runtime.GOMAXPROCS(1)
+	debug.SetGCPercent(-1)
+	vh.Silence()
+	c := &clock{ns: baseMs * 1e6}
+	util.SetClock(c)
+	return &Interp{clk: c}
+}
+
+func (it *Interp) Reset() {
+	it.rec = nil
+	it.clear()
+}
+
+func (it *Interp) clear() {
+	it.clk.ns = baseMs * 1e6 // every phase starts at the same virtual time
+	_ = flow.ClearRules()
+	_ = circuitbreaker.ClearRules()
+	_ = hotspot.ClearRules()
+	circuitbreaker.ClearStateChangeListeners()
+	stat.ResetResourceNodeMap()
+	it.clk.slept = 0
+	debug.FreeOSMemory()
+}
+
+func nums(s string) []uint64 {
+	parts := strings.Split(s, ":")
+	out := make([]uint64, len(parts))
+	for i, p := range parts {
+		out[i] = vh.U(p)
+	}
+	return out
+}
+
+func resName(x uint64) string { return "r" + strconv.FormatUint(x, 10) }
+
+func split(arg string) []string {
+	if arg == "-" {
+		return nil
+	}
+	return strings.Split(arg, ",")
+}
+
+// freshly allocated rule objects on every load, as a caller decoding a configuration would pass them
+func cbRules(arg string) []*circuitbreaker.Rule {
+	var rs []*circuitbreaker.Rule
+	for _, s := range split(arg) {
+		n := nums(s)
+		if len(n) != 10 {
+			panic("bad cb rule " + s)
+		}
+		rs = append(rs, &circuitbreaker.Rule{
+			Id: strconv.FormatUint(n[0], 10), Resource: resName(n[1]), Strategy: circuitbreaker.Strategy(n[2]),
+			RetryTimeoutMs: uint32(n[3]), MinRequestAmount: n[4], StatIntervalMs: uint32(n[5]),
+			StatSlidingWindowBucketCount: uint32(n[6]), MaxAllowedRtMs: n[7], Threshold: float64(n[8]), ProbeNum: n[9],
+		})
+	}
+	return rs
+}
+
+func flowRules(arg string) []*flow.Rule {
+	var rs []*flow.Rule
+	for _, s := range split(arg) {
+		n := nums(s)
+		if len(n) != 11 {
+			panic("bad flow rule " + s)
+		}
+		ref := ""
+		if n[6] != 0 {
+			ref = resName(n[6])
+		}
+		rs = append(rs, &flow.Rule{
+			ID: strconv.FormatUint(n[0], 10), Resource: resName(n[1]), TokenCalculateStrategy: flow.TokenCalculateStrategy(n[2]),
+			ControlBehavior: flow.ControlBehavior(n[3]), Threshold: float64(n[4]), RelationStrategy: flow.RelationStrategy(n[5]),
+			RefResource: ref, MaxQueueingTimeMs: uint32(n[7]), WarmUpPeriodSec: uint32(n[8]), WarmUpColdFactor: uint32(n[9]),
+			StatIntervalInMs: uint32(n[10]),
+		})
+	}
+	return rs
+}
+
+func hotRules(arg string) []*hotspot.Rule {
+	var rs []*hotspot.Rule
+	for _, s := range split(arg) {
+		n := nums(s)
+		if len(n) != 13 {
+			panic("bad hotspot rule " + s)
+		}
+		var items map[interface{}]int64
+		switch n[10] {
+		case 1:
+			items = map[interface{}]int64{}
+		case 2:
+			items = map[interface{}]int64{int(n[11]): int64(n[12])}
+		}
+		rs = append(rs, &hotspot.Rule{
+			ID: strconv.FormatUint(n[0], 10), Resource: resName(n[1]), MetricType: hotspot.MetricType(n[2]),
+			ControlBehavior: hotspot.ControlBehavior(n[3]), ParamIndex: int(n[4]), Threshold: int64(n[5]),
+			MaxQueueingTimeMs: int64(n[6]), BurstCount: int64(n[7]), DurationInSec: int64(n[8]), ParamsMaxCapacity: int64(n[9]),
+			SpecificItems: items,
+		})
+	}
+	return rs
+}
+
+func (it *Interp) Step(t []string, op string) string {
+	if t[0] == "phase" {
+		// the same traffic once more, from scratch, without the reloads
+		it.clear()
+		var out []string
+		for _, o := range it.rec {
+			r := it.step(o, strings.Join(o, " "))
+			if o[0] == "e" {
+				out = append(out, r)
+			}
+		}
+		if len(out) == 0 {
+			return "-"
+		}
+		return strings.Join(out, ";")
+	}
+	r := it.step(t, op)
+	if !strings.Contains(t[0], ".reload") {
+		it.rec = append(it.rec, append([]string(nil), t...))
+	}
+	return r
+}
+
+func (it *Interp) step(t []string, op string) string {
+	switch t[0] {
+	case "t":
+		it.clk.ns = vh.U(t[1]) * 1e6
+		return ""
+	case "cb.load", "cb.reload":
+		if _, err := circuitbreaker.LoadRules(cbRules(t[1])); err != nil {
+			return "err"
+		}
+		return ""
+	case "cb.loadres", "cb.reloadres":
+		if _, err := circuitbreaker.LoadRulesOfResource(resName(vh.U(t[1])), cbRules(t[2])); err != nil {
+			return "err"
+		}
+		return ""
+	case "flow.load", "flow.reload":
+		if _, err := flow.LoadRules(flowRules(t[1])); err != nil {
+			return "err"
+		}
+		return ""
+	case "flow.loadres", "flow.reloadres":
+		if _, err := flow.LoadRulesOfResource(resName(vh.U(t[1])), flowRules(t[2])); err != nil {
+			return "err"
+		}
+		return ""
+	case "hot.load", "hot.reload":
+		if _, err := hotspot.LoadRules(hotRules(t[1])); err != nil {
+			return "err"
+		}
+		return ""
+	case "hot.loadres", "hot.reloadres":
+		if _, err := hotspot.LoadRulesOfResource(resName(vh.U(t[1])), hotRules(t[2])); err != nil {
+			return "err"
+		}
+		return ""
+	case "e":
+		it.clk.slept = 0
+		var opts []sentinel.EntryOption
+		if len(t) > 3 && t[3] != "0" {
+			opts = append(opts, sentinel.WithArgs(int(vh.U(t[3]))))
+		}
+		e, b := sentinel.Entry(resName(vh.U(t[1])), opts...)
+		if b != nil {
+			id := "-"
+			switch r := b.TriggeredRule().(type) {
+			case *flow.Rule:
+				id = r.ID
+			case *circuitbreaker.Rule:
+				id = r.Id
+			case *hotspot.Rule:
+				id = r.ID
+			}
+			kind := "other"
+			switch b.BlockType().String() {
+			case "BlockTypeFlowControl":
+				kind = "flow"
+			case "BlockTypeCircuitBreaking":
+				kind = "cb"
+			case "BlockTypeHotSpotParamFlow":
+				kind = "hot"
+			}
+			return fmt.Sprintf("block %s %s", kind, id)
+		}
+		if t[2] != "0" {
+			sentinel.TraceError(e, errTraffic)
+		}
+		e.Exit()
+		if it.clk.slept > 0 {
+			return fmt.Sprintf("pass wait %d", int64(it.clk.slept))
+		}
+		return "pass"
+	}
+	panic("bad op " + op)
+}
